@@ -646,3 +646,96 @@ func ruleMissingPathNil(c *Ctx, rule string) {
 	c.CallSites(n)
 	c.Floor(rule, 2)
 }
+
+// ruleCascadeReentry: a cascading delete deletes the referrers of an entity BEFORE the entity's own bucket is
+// removed, through the same DeleteById that is running.  When the references form a cycle (an entity that refers
+// to itself — the only way to create the first entity under AddFkIndexCascadeDelete — or a ↔ b) the nested delete
+// finds the entity that is already being deleted among the referrers and starts deleting it again: unbounded
+// recursion, ended by the runtime's stack overflow (not a recoverable panic).  Necessary for termination: before
+// the nested DeleteById is started, the referrer's id is tested against something (the ids already being deleted),
+// here in the cascade, or DeleteById itself consults a marker keyed by the id before it runs the constraints.
+func ruleCascadeReentry(c *Ctx, rule string) {
+	p := c.P
+	hook := p.SSAFunc(p.Method("boltz", "fkDeleteCascadeConstraint", "ProcessBeforeDelete"))
+	del := p.SSAFunc(p.Method("boltz", "BaseStore", "DeleteById"))
+	n := 0
+	// backward slice: does v depend on a value satisfying pred?
+	dependsOn := func(v ssa.Value, pred func(ssa.Value) bool) bool {
+		seen := map[ssa.Value]bool{}
+		var walk func(x ssa.Value, depth int) bool
+		walk = func(x ssa.Value, depth int) bool {
+			if x == nil || seen[x] || depth > 10 {
+				return false
+			}
+			seen[x] = true
+			if pred(x) {
+				return true
+			}
+			if in, ok := x.(ssa.Instruction); ok {
+				var rands []*ssa.Value
+				for _, op := range in.Operands(rands) {
+					if op != nil && *op != nil && walk(*op, depth+1) {
+						return true
+					}
+				}
+			}
+			return false
+		}
+		return walk(v, 0)
+	}
+	// (b) DeleteById consults a marker keyed by the id before the constraints run
+	markerInDelete := false
+	if len(del.Params) >= 3 {
+		id := ssa.Value(del.Params[2])
+		isID := func(x ssa.Value) bool { return x == id }
+		for _, b := range del.Blocks {
+			for _, in := range b.Instrs {
+				switch x := in.(type) {
+				case *ssa.Lookup:
+					if dependsOn(x.Index, isID) {
+						markerInDelete = true
+					}
+				case *ssa.Call:
+					if x.Call.IsInvoke() && x.Call.Method.Name() == "Value" && len(x.Call.Args) == 1 && dependsOn(x.Call.Args[0], isID) {
+						markerInDelete = true
+					}
+				}
+			}
+		}
+	}
+	for _, fn := range dispatchScope(hook) {
+		loops := loopsOf(fn)
+		for _, call := range callsIn(fn) {
+			if !invokeNamed(call, "DeleteById") {
+				continue
+			}
+			l := innermostLoop(loops, call.Block())
+			if l == nil {
+				continue
+			}
+			n++
+			c.Analysed(FnName(fn))
+			// (a) a test of the referrer's id (what the cursor is on) stands before the nested delete
+			isCurrent := func(x ssa.Value) bool {
+				k, ok := x.(*ssa.Call)
+				return ok && invokeNamed(k, "Current")
+			}
+			tested := false
+			for b := range l.Blocks {
+				iff, isIf := b.Instrs[len(b.Instrs)-1].(*ssa.If)
+				if !isIf || b == l.Header {
+					continue
+				}
+				if dependsOn(iff.Cond, isCurrent) && b.Dominates(call.Block()) && b != call.Block() {
+					tested = true
+				}
+			}
+			// (named by what it is, not by the function it happens to stand in: the recorded finding stays the same
+			// finding when the loop moves into a helper)
+			construct := "boltz cascade delete: nested DeleteById of a referrer"
+			c.Check(tested || markerInDelete, rule, construct, p.Pos(call.Pos()), "the nested delete is started only after the referrer's id was tested (or DeleteById consults a marker keyed by the id)", "the cascade starts a nested DeleteById for every referrer without testing whether that entity is already being deleted, and DeleteById keeps no marker either: on a reference cycle (an entity referring to itself, a ↔ b) the deletes recurse until the stack overflows")
+		}
+	}
+	c.CallSites(n)
+	c.Floor(rule, 1)
+}
